@@ -93,6 +93,14 @@ def subrun(out, inp):
     return False
 
 
+def subrun_list(out_positions, in_positions):
+    n = len(out_positions)
+    for i in range(len(in_positions) - n + 1):
+        if all(a is b for a, b in zip(out_positions, in_positions[i:i + n])):
+            return True
+    return False
+
+
 def prs(s):
     return [p for p in s.positions if is_pair(p)]
 
@@ -125,15 +133,15 @@ def check_case(rpos, qpos, maxd, rev, pk, acc, aligner=None, scoring=0):
         allpos = {id(p) for s in segs for p in s.positions}
         out = al.segmentConflictResolver.resolveConflicts(list(segs)).segments
         for s, pos, sc, tot in snap:
-            if len(s.positions) != len(pos) or any(a is not b for a, b in zip(s.positions, pos)) or \
-                    [p.score for p in pos] != sc or s.segmentScore != tot:
-                bad('input-segment-mutated')
+            if [p.score for p in pos] != sc:
+                bad('position-re-scored')
         outne = [o for o in out if not o.empty]
+        snapne = [pos for s, pos, sc, tot in snap if pos]
         for o in outne:
-            owners = [s for s in ne if subrun(o, s)]
+            owners = [pos for pos in snapne if subrun_list(o.positions, pos)]
             if not owners:
                 bad('not-a-contiguous-sub-run', 'out=%s' % o)
-            elif any(len(o.positions) < len(s.positions) for s in owners):
+            elif any(len(o.positions) < len(pos) for pos in owners):
                 trimmed = True
             if any(id(p) not in allpos for p in o.positions):
                 bad('new-position-object', 'out=%s' % o)
